@@ -107,6 +107,13 @@ def gen_schedule(rng, i, tier):
         files[sp_] = files[sp_].rstrip('\n') + rng.choice(['', '\n\n\n', '  \n', '\n# end'])
     snap = {r: c.encode('utf-8') for r, c in files.items()}
     snap['elsewhere/'] = None
+    if rng.random() < 0.05 or i % 10 == 9:
+        # a config file that is a symbolic link to something not there at the moment (an unmounted share, a sync client that has not
+        # delivered yet): the link is the user's, whatever `exists()` says about it
+        for nm_ in rng.sample(['config/views.rules', 'config/merchants.rules', '.gitignore'], 2):
+            if base + nm_ not in snap and base + nm_ + '@' not in snap:
+                snap[base + nm_ + '@'] = ('../shared/not-mounted-' + nm_.split('/')[-1]).encode() if '/' in nm_ else b'shared/not-mounted-gitignore'
+                break
     if rng.random() < 0.12 or i % 10 == 6:
         # a statement as another program exported it: UTF-16 with a byte-order mark ("Unicode text"), or Windows-1252 with one accented
         # letter.  Whatever the commands make of it, they do not write next to it
@@ -423,6 +430,9 @@ def check_step(sched, step, pre, post, r):
             if key in mig or (os.path.dirname(key) == cfg and (bn.startswith('merchants.rules.') or bn.startswith('merchant_categories.csv.bak')
                                                                or bn.endswith('.tmp'))):
                 continue
+            if key.endswith('@') and key[:-1] == cfg + '/merchants.rules':
+                # a dangling link where the generated rules file goes: the requested migration puts the file there (nothing it pointed to is lost)
+                continue
             bad('RO', rel, ch)
         # settings only grew
         s0 = pre.get(cfg + '/' + sname)
@@ -446,6 +456,8 @@ def check_step(sched, step, pre, post, r):
                     if any(e_.get('k') == 'actor' and e_.get('path') == rel_ for e_ in r.events):
                         pre_user[rel_] = text_.encode('utf-8')      # saved by the user while tally waited at the prompt: theirs like any other file
         for p_, c_ in sorted(pre_user.items()):
+            if p_.endswith('@'):
+                continue      # a symbolic link is a name, not content
             if c_ and os.path.dirname(p_) == cfg and classify_path(p_) in ('rules', 'csv-rules') and c_ not in have:
                 bad('BAK', p_, 'lost (its content is in no file any more)')
         if csv_pre is not None and post.get(cfg + '/merchant_categories.csv') != csv_pre:
@@ -488,6 +500,8 @@ def check_step(sched, step, pre, post, r):
                     # (which has no line terminator) stays the line it was
                     bad('INIT', rel, 'last line altered (text appended to an unterminated last line)')
                 continue
+            if key == tcfg + '/merchants.rules@' and ch == 'deleted' and csv_pre is not None and csv_has_rules(csv_pre) and (tcfg + '/merchants.rules') in post:
+                continue      # init's migration case: the generated rules file takes the place of a link that pointed nowhere
             if key == csvp and ch == 'deleted' and may_migrate:
                 baks = [c for p, c in post.items() if p.startswith(csvp + '.bak') and c is not None]
                 if csv_pre in baks:
